@@ -32,7 +32,7 @@ func NewEngine(prog *ssa.Program, modPath string, cfg Config) *Engine {
 		cfg.SolverName = "z3"
 	}
 	if cfg.TimeoutMs == 0 {
-		cfg.TimeoutMs = 20000
+		cfg.TimeoutMs = 40000
 	}
 	if cfg.Workers == 0 {
 		cfg.Workers = 8
